@@ -26,6 +26,11 @@ FLT_EPS = 2.0 ** -23
 QERR = 1e-9
 CLAMP_ANGLE = math.acos(1.0 - QERR)          # F5: arcLength is 0 below this angle
 WEIGHTS = [0.5, 1.0, 2.0, 1e-3, 1e3]
+# the whole legal range of a component weight (addSubspace / setSubspaceWeight reject only negative values):
+MIN_NORMAL = 2.0 ** -1022
+TINY_WEIGHTS = [1e-16, 2.0 ** -53, math.nextafter(DBL_EPS, 0.0), 1e-17, 1e-20, 1e-100, 1e-300, MIN_NORMAL, 1e-310, 5e-324]
+EDGE_WEIGHTS = [DBL_EPS, math.nextafter(DBL_EPS, 1.0), 2.0 ** -51]     # the kept side of getMaximumExtent's `>= epsilon` guard
+HUGE_WEIGHTS = [1e6, 1e15, 1e100]
 IMPL_ONLY = ("dubins", "reedsshepp", "owen", "vana", "vanaowen")
 CAR2D = ("dubins", "reedsshepp")
 CONSTRAINED = ("projected", "atlas", "tangentbundle")
@@ -243,9 +248,82 @@ def units(sp, w=1.0):
         return [(("rv", sp[1], sp[2]), w, 3), (("so3",), w, 4)]
     if k == "wrap" or k == "cforest" or is_con(k):      # pure forwarding
         return units(sp[1], w)
-    if k == "spacetime":                                        # compound [(1-tw, space), (tw, time)]
-        return units(sp[4], w * (1 - sp[2])) + [(("time", sp[3]), w * sp[2], 1)]
+    if k == "spacetime":                                        # compound [(w0, space), (w1, time)], initially (1-tw, tw)
+        w0, w1 = st_weights(sp)
+        return units(sp[4], w * w0) + [(("time", sp[3]), w * w1, 1)]
     return [(sp, w, nvals(sp))]
+
+
+def st_weights(sp):
+    """current weights of a SpaceTimeStateSpace node: `addSubspace(space, 1 - timeWeight); addSubspace(time, timeWeight)`
+    unless changed by setSubspaceWeight (6th element of the effective AST)"""
+    return sp[5] if len(sp) > 5 else (1.0 - sp[2], sp[2])
+
+
+def unit_zero_flags(sp, z=False):
+    """for every unit of `units(sp)`: is a weight on the way down EXACTLY zero (F135)?  (the product of the weights may
+    underflow to 0 without any of them being 0 — that is rounding, not a zero weight)"""
+    k = sp[0]
+    if k == "hist":
+        return unit_zero_flags(sp[3], z)
+    if k == "cmp":
+        return [u for wi, c in sp[1] for u in unit_zero_flags(c, z or wi == 0.0)]
+    if k == "se2" or k == "se3":
+        return [z, z]
+    if k == "wrap" or k == "cforest" or is_con(k):
+        return unit_zero_flags(sp[1], z)
+    if k == "spacetime":
+        w0, w1 = st_weights(sp)
+        return unit_zero_flags(sp[4], z or w0 == 0.0) + [z or w1 == 0.0]
+    return [z]
+
+
+def tree_fold(sp, vals, mode="dist"):
+    """the value of the whole space from the values of its unit sub-spaces (`vals`: an iterator in `units()` order), folded
+    exactly as CompoundStateSpace does it — per compound node `acc = 0.0; acc += w_i * child_i` in component order, in IEEE
+    double arithmetic (Python floats) — i.e. literally "the weighted sum of its components' distances" at every level.
+    mode: "dist" (every component counts), "extent>0" (getMaximumExtent with the guard `w > 0`: components of positive weight).
+    Returns (value, underflow): underflow = some product of a positive weight and a positive value came out below the
+    smallest normal double (subnormal or zero: its relative precision is lost)."""
+    k = sp[0]
+    if k == "hist":
+        return tree_fold(sp[3], vals, mode)
+    if k in ("se2", "se3"):
+        return tree_fold(expand(sp), vals, mode)
+    if k == "cmp" or k == "spacetime":
+        comps = sp[1] if k == "cmp" else list(zip(st_weights(sp), [sp[4], ("time", sp[3])]))
+        acc, uf = 0.0, False
+        for w, c in comps:
+            v, u = tree_fold(c, vals, mode)
+            uf = uf or u
+            if mode != "dist" and not w > 0.0:
+                continue
+            p = w * v
+            if w > 0.0 and v > 0.0 and p < MIN_NORMAL:
+                uf = True
+            acc += p
+        return acc, uf
+    if k == "wrap" or k == "cforest" or is_con(k):
+        return tree_fold(sp[1], vals, mode)
+    return next(vals), False
+
+
+def all_weights(sp):
+    k = sp[0]
+    if k == "hist":
+        return all_weights(sp[3])
+    if k == "cmp":
+        return [w for w, _c in sp[1]] + [x for _w, c in sp[1] for x in all_weights(c)]
+    if k == "wrap" or k == "cforest" or is_con(k):
+        return all_weights(sp[1])
+    if k == "spacetime":
+        return list(st_weights(sp)) + all_weights(sp[4])
+    return []
+
+
+def odd_weights(sp):
+    """does the space carry a weight outside the everyday range (tiny, at the epsilon guard, huge)?"""
+    return any(w != 0.0 and (w < 1e-6 or w > 1e5) for w in all_weights(sp))
 
 
 def contains(sp, pred):
@@ -566,19 +644,109 @@ def rand_leaf(r, allow_special=True):
     return ("wrap", ("so2",))
 
 
-def rand_compound(r, depth):
+def rand_weight(r):
+    """(weight, class): zero 1/12, everyday 7/12, tiny (subnormal … just below DBL_EPSILON) 1/6, at the epsilon guard 1/12,
+    huge 1/12"""
+    c = r.below(12)
+    if c == 0:
+        return 0.0, "zero"
+    if c <= 2:
+        return r.choice(TINY_WEIGHTS), "tiny"
+    if c == 3:
+        return r.choice(EDGE_WEIGHTS), "edge"
+    if c == 4:
+        return r.choice(HUGE_WEIGHTS), "huge"
+    return r.choice(WEIGHTS), "normal"
+
+
+def big_partner(r, w):
+    """a component whose range is so large that its term under the tiny weight `w` is NOT negligible (a coordinate stored
+    in very small units, compensated by the weight): weighted range ~ 0.2 … 20 where the doubles allow it.  R^n squares
+    the differences (range capped at 1e150), time and SO(2)-free leaves do not (capped at 1e300)."""
+    c = r.choice([1.0, 10.0, 0.1])
+    if r.chance(1, 2):
+        h = min(c / w, 1e300)
+        lo = r.choice([-h, -h, 0.0])
+        return ("time", (lo, h))
+    h = min(c / w, 1e150)
+    n = r.range(1, 3)
+    lo = r.choice([-h, -h, 0.0])
+    return ("rv", [lo] * n, [h] * n)
+
+
+def rough_extent(sp):
+    """upper estimate of the largest distance (no cut-off), only used to keep huge weights away from overflow"""
+    k = sp[0]
+    if k == "rv":
+        return math.sqrt(sum((h - l) ** 2 for l, h in zip(sp[1], sp[2])))
+    if k == "time":
+        return 200.0 if sp[1] is None else sp[1][1] - sp[1][0]
+    if k == "disc":
+        return float(sp[2] - sp[1])
+    if k == "cmp":
+        return sum(w * rough_extent(c) for w, c in sp[1])
+    if k in ("se2", "se3"):
+        return rough_extent(("rv", sp[1], sp[2])) + PI
+    if k == "wrap":
+        return rough_extent(sp[1])
+    if k == "mobius":
+        return PI + 2 * sp[1]
+    if k == "sphere":
+        return PI * sp[1]
+    return 2 * PI
+
+
+def tame(sp):
+    """huge weights replaced by 1 (used when the weighted range would approach the overflow threshold)"""
+    if sp[0] == "cmp":
+        return ("cmp", [((1.0 if w > 1e5 else w), tame(c)) for w, c in sp[1]])
+    if sp[0] == "wrap":
+        return ("wrap", tame(sp[1]))
+    return sp
+
+
+def rand_compound(r, depth, top=True):
     k = r.range(1, 4) if depth > 1 else r.range(1, 3)
     cs = []
     for _ in range(k):
-        w = 0.0 if r.chance(1, 12) else r.choice(WEIGHTS)
-        if depth > 1 and r.chance(2, 5):
-            s = rand_compound(r, depth - 1)
+        w, cls = rand_weight(r)
+        if cls == "tiny" and r.chance(2, 3):
+            s = big_partner(r, w)
+        elif depth > 1 and r.chance(2, 5):
+            s = rand_compound(r, depth - 1, top=False)
             if r.chance(1, 6):
                 s = ("wrap", s)
         else:
             s = rand_leaf(r)
         cs.append((w, s))
-    return ("cmp", cs)
+    sp = ("cmp", cs)
+    if top and not rough_extent(sp) < 1e200:
+        sp = tame(sp)
+    return sp
+
+
+def weight_spaces():
+    """fixed compounds over the whole legal weight range: tie-breaker weights, weights compensating a component in tiny
+    units (weighted range 20), subnormal weights, weights on either side of getMaximumExtent's epsilon guard, huge weights,
+    mixtures, nested, wrapped, as SE(2) / SpaceTime weights"""
+    r1 = ("rv", [0.0], [1.0])
+    sub = math.nextafter(DBL_EPS, 0.0)
+    return [
+        ("cmp", [(1.0, ("rv", [0.0, 0.0], [1.0, 1.0])), (1e-16, ("so2",))]),                       # tie-breaker
+        ("cmp", [(1.0, r1), (1e-16, ("rv", [-1e17], [1e17]))]),                                    # femtometres
+        ("cmp", [(1e-16, ("rv", [-1e17, -1e17], [1e17, 1e17])), (0.5, ("so2",)), (1e-300, ("time", (-1e300, 1e300)))]),
+        ("cmp", [(sub, ("time", (0.0, 1e17))), (DBL_EPS, ("time", (0.0, 1e17))), (1.0, ("so3",))]),  # either side of the guard
+        ("cmp", [(5e-324, ("time", (-1e300, 1e300))), (1e-310, ("rv", [-1e150], [1e150])), (1.0, ("disc", 0, 3))]),
+        ("cmp", [(1e100, r1), (1e-100, ("rv", [-1e101], [1e101])), (1e15, ("so2",))]),
+        ("cmp", [(2.0, ("cmp", [(1e-200, ("cmp", [(1e-100, ("time", (-1e300, 1e300)))])), (1.0, ("so2",))])), (0.0, r1)]),
+        ("wrap", ("cmp", [(1e-17, ("se2", [-1e17, -1e17], [1e17, 1e17])), (1.0, ("torus", 1.0, 0.5))])),
+        ("cmp", [(2.0 ** -53, ("time", (0.0, 2.0 ** 60))), (1.0, ("time", (0.0, 1.0)))]),          # the Lean witness of F360
+        ("spacetime", 1e17, 1e-16, (0.0, 1e17), ("rv", [0.0], [1.0])),
+        ("spacetime", 1.0, math.nextafter(1.0, 0.0), (0.0, 4.0), ("rv", [-1.0, -1.0], [1.0, 1.0])),
+        ("spacetime", 2.0, 5e-324, None, ("so2",)),
+        ("spacetime", 1.0, 0.0, (0.0, 2.0), ("so2",)),
+        ("spacetime", 1.0, 1.0, (0.0, 2.0), ("rv", [0.0], [1.0])),
+    ]
 
 
 def shipped_spaces(r):
@@ -654,7 +822,7 @@ def expand(sp):
     if k == "wrap" or k == "cforest" or is_con(k):
         return (k, expand(sp[1]))
     if k == "spacetime":
-        return ("spacetime", sp[1], sp[2], sp[3], expand(sp[4]))
+        return ("spacetime", sp[1], sp[2], sp[3], expand(sp[4]), st_weights(sp))
     return sp
 
 
@@ -679,8 +847,8 @@ def with_child(sp, i, new):
         return (k, new)
     if k == "spacetime":
         if i == 0:
-            return ("spacetime", sp[1], sp[2], sp[3], new)
-        return ("spacetime", sp[1], sp[2], new[1], sp[4])
+            return ("spacetime", sp[1], sp[2], sp[3], new) + tuple(sp[5:])
+        return ("spacetime", sp[1], sp[2], new[1], sp[4]) + tuple(sp[5:])
     raise ValueError("no child")
 
 
@@ -722,8 +890,14 @@ def apply_op(eff, op):
     if op[0] == "weights":
         return eff
     _k, path, idx, w = op
+    if w < 0.0:                # setSubspaceWeight throws "Subspace weight cannot be negative": the space stays as it is
+        return eff
 
     def g(n):
+        if n[0] == "spacetime":                 # a SpaceTimeStateSpace is a compound of (space, time) itself
+            ws = list(st_weights(n))
+            ws[idx] = w
+            return n[:5] + (tuple(ws),)
         cs = list(n[1])
         cs[idx] = (w, cs[idx][1])
         return ("cmp", cs) + tuple(n[2:])
@@ -765,7 +939,10 @@ def pre_expected(sp):
             node = eff
             for i in op[1]:
                 node = children(node)[i]
-            out.append(" ".join(["w", str(len(node[1]))] + [B(w) for w, _c in node[1]]))
+            ws = list(st_weights(node)) if node[0] == "spacetime" else [w for w, _c in node[1]]
+            out.append(" ".join(["w", str(len(ws))] + [B(w) for w in ws]))
+        elif op[0] in ("setweight", "setweightn") and op[3] < 0.0:
+            out.append("bad-op")
         else:
             out.append("ok")
     return out
@@ -813,9 +990,33 @@ def rand_history(r, base):
                 m = 2 if n[2] == "se2" else 3
                 ops.append(("setbounds", path, [-7.0] * m, [r.choice([7.0, 70.0])] * m))
             else:
-                ops.append((r.choice(["setweight", "setweightn"]), path, idx, r.choice([2.0, 0.25, 0.1, 3.0, 1e3, 0.0, 1.0])))
+                if r.chance(1, 10):             # refused (negative): answered bad-op, nothing changes
+                    ops.append((r.choice(["setweight", "setweightn"]), path, idx, r.choice([-1.0, -1e-300, -5e-324])))
+                    eff = apply_op(eff, ops[-1])
+                w = r.choice([2.0, 0.25, 0.1, 3.0, 1e3, 0.0, 1.0]) if r.chance(3, 5) else r.choice(TINY_WEIGHTS + EDGE_WEIGHTS + [1e15])
+                ops.append((r.choice(["setweight", "setweightn"]), path, idx, w))
                 eff = apply_op(eff, ops[-1])
                 ops.append(("weights", path))
+                if 0.0 < w < 1e-6 and r.chance(2, 3):
+                    # ... and the component under the tiny weight gets a range that makes its term count
+                    cpath = tuple(path) + (idx,)
+                    node = dict(nodes(eff)).get(cpath)
+                    h = min(r.choice([1.0, 10.0]) / w, 1e150)
+                    if node is not None and node[0] == "rv" and node[1]:
+                        eff = apply_op(eff, ops[-1])
+                        ops.append(("setbounds", cpath, [-h] * len(node[1]), [h] * len(node[1])))
+                    elif node is not None and node[0] == "time":
+                        eff = apply_op(eff, ops[-1])
+                        ops.append(("setbounds", cpath, [0.0], [min(r.choice([1.0, 10.0]) / w, 1e300)]))
+                    elif node is not None and node[0] == "cmp" and len(node) > 2:
+                        eff = apply_op(eff, ops[-1])
+                        m = 2 if node[2] == "se2" else 3
+                        ops.append(("setbounds", cpath, [-h] * m, [h] * m))
+        elif n[0] == "spacetime":
+            idx = r.below(2)
+            ops.append((r.choice(["setweight", "setweightn"]), path, idx, r.choice([0.25, 2.0, 0.0, 1e-16, 1e-300, 5e-324, 1e6])))
+            eff = apply_op(eff, ops[-1])
+            ops.append(("weights", path))
         else:
             continue
         eff = apply_op(eff, ops[-1])
@@ -861,11 +1062,28 @@ def history_spaces(r, n_random):
         make_hist(("cmp", [(2.0, ("disc", 0, 3)), (1.0, rv2)]), [("setup",), ("setbounds", (0,), [0.0], [40.0]), ("adddim", (1,), -3.0, 3.0)]),
         make_hist(("wrap", rv2), [("setup",), ("adddim", (0,), 0.0, 25.0)]),
         make_hist(("projected", box3), [("adddim", (0,), -5.0, 5.0), ("setup",)]),
+        # weights over the whole legal range, set after construction: a tie-breaker weight on the SO(2) part of a real SE(2),
+        # a weight compensating tiny units (weighted range 20), subnormal, either side of the epsilon guard, refused negatives
+        make_hist(se2, [("setweight", (), 1, 1e-16), ("weights", ())]),
+        make_hist(se2, [("setup",), ("setweightn", (), 0, 1e-16), ("setbounds", (), [-1e17, -1e17], [1e17, 1e17]), ("weights", ())]),
+        make_hist(("se3", [-1.0] * 3, [1.0] * 3), [("setweight", (), 1, 5e-324), ("setweight", (), 0, 1e-300),
+                                                   ("setbounds", (), [-1e150] * 3, [1e150] * 3), ("setup",)]),
+        make_hist(("cmp", [(1.0, rv2), (1.0, ("time", (0.0, 1.0)))]),
+                  [("setup",), ("setweight", (), 1, math.nextafter(DBL_EPS, 0.0)), ("setbounds", (1,), [0.0], [1e17]), ("weights", ())]),
+        make_hist(("cmp", [(1.0, rv2), (1.0, ("time", (0.0, 1.0)))]),
+                  [("setweight", (), 1, DBL_EPS), ("setbounds", (1,), [0.0], [1e17]), ("setup",)]),
+        make_hist(("wrap", ("cmp", [(3.0, se2), (1.0, ("rv", [0.0], [1.0]))])),
+                  [("setweight", (0,), 1, -1.0), ("setweightn", (0,), 1, 1e-100), ("setbounds", (0, 1), [-1e101], [1e101]), ("weights", (0,))]),
+        make_hist(("cforest", se2), [("setup",), ("setweightn", (0,), 1, -5e-324), ("setweight", (0,), 1, 2.0 ** -53), ("weights", (0,))]),
+        make_hist(("spacetime", 1.0, 0.5, (0.0, 5.0), rv2), [("setweight", (), 1, 1e-16), ("setbounds", (1,), [0.0], [1e17]), ("weights", ())]),
+        make_hist(("spacetime", 1.0, 0.5, (0.0, 5.0), se2), [("setup",), ("setweightn", (), 0, 5e-324), ("setweight", (), 1, 3.0), ("weights", ())]),
+        make_hist(("spacetime", 2.0, 0.25, None, ("so2",)), [("setweight", (), 0, -1.0), ("setweight", (), 0, 0.0), ("weights", ())]),
     ]
     for i in range(n_random):
         rr = r.fork("hist%d" % i)
         base = rand_compound(rr, rr.choice([1, 2, 2, 3])) if rr.chance(2, 3) else rr.choice(
-            [se2, ("se3", [0.0] * 3, [2.0] * 3), ("wrap", se2), ("wrap", rv2), ("cforest", se2), ("projected", box3)])
+            [se2, ("se3", [0.0] * 3, [2.0] * 3), ("wrap", se2), ("wrap", rv2), ("cforest", se2), ("projected", box3),
+             ("spacetime", 1.0, 0.5, (0.0, 5.0), rv2), ("spacetime", 0.5, rr.choice([0.3, 1e-16, 0.0, 1.0]), None, se2)])
         if rr.chance(1, 4) and base[0] == "cmp":
             base = ("wrap", base)
         if nvals(base) > 40:
@@ -1076,37 +1294,62 @@ def cmp_line(a, b):
     return "diff"
 
 
-def attribute(ck, hbin, sp, tr, law, idx):
+def unit_outputs(ck, hbin, sp, tr):
+    """the real code's answers for every unit sub-space of `sp` on the corresponding slices of the triple — ONE process for
+    all units: [(unit space, effective weight, zero-weight-on-the-path, slice, claims, extent, (inb, D, E))] or None"""
+    us = units(sp)
+    zs = unit_zero_flags(sp)
+    script = ["spacedist"]
+    subs = []
+    i = 0
+    for usp, w, n in us:
+        sub = tuple(s[i:i + n] for s in tr)
+        i += n
+        subs.append(sub)
+        script += space_lines(usp, [sub])
+    o, rc, err = run_bin_retry(ck, hbin, script)
+    per = 3 + OPS_PER_TRIPLE
+    if not o or len(o) < per * len(us):
+        return None
+    out = []
+    for j, (usp, w, n) in enumerate(us):
+        blk = o[j * per:(j + 1) * per]
+        if blk[0] != "ok":
+            return None
+        cl, ext, ts = parse_block(blk[1:])
+        if not ts or ts[0] is None or cl is None:
+            return None
+        out.append((usp, w, zs[j], subs[j], cl, ext, ts[0]))
+    return out
+
+
+def attribute(ck, hbin, sp, tr, law, idx, uo=None):
     """which unit sub-spaces (leaf spaces with a distance function of their own) violate `law` on the
     corresponding slices of the triple, each judged by its contribution weight·distance to the compound
     (same slack rule).  Returns [(unit kind, tags)]: tags narrow the finding class — SO(3) triangle:
     `within_clamp_bound` (defect ≤ 2·acos(1-1e-9) per unit weight); Klein positivity: `glued_boundary`
     (u-values 0 and π: the two states are the same point of the bottle); SO(3) self-distance:
     `below_clamp_norm` (squared norm ≤ 1-1e-9 although the norm is within 1e-9 of 1); car-like positivity: `within_car_eps`."""
-    us = units(sp)
+    if uo is None:
+        uo = unit_outputs(ck, hbin, sp, tr)
     out = []
-    i = 0
-    for usp, w, n in us:
-        sub = tuple(s[i:i + n] for s in tr)
-        i += n
-        script = ["spacedist"] + space_lines(usp, [sub])
-        o, rc, err = run_bin_retry(ck, hbin, script)
-        if not o or o[0] != "ok":
-            continue
-        cl, ext, ts = parse_block(o[1:])
-        if not ts or ts[0] is None or cl is None:
-            continue
+    for usp, w, zero, sub, cl, ext, res in (uo or []):
         # every law is evaluated on the unit, whatever the unit itself claims (the compound claimed it)
         cl2 = dict(cl)
         cl2["metric"] = True
         # a zero-weight component contributes 0·distance: judged with scale 0 it can only fail the parts of the laws
         # that do not go through the distance — `equalStates(s, s)` — and POSITIVITY (states that differ in it alone are
         # at distance 0: a pseudo-metric by the user's choice of weight, yet the compound claims isMetricSpace())
-        scale = w
-        vs = [v for v in laws(usp, cl2, ext, sub, ts[0], scale=scale) if v[0] == law]
+        scale = 0.0 if zero else w
+        if law == "positive" and not zero:
+            # positivity is judged on the unit's OWN distance (is it exactly 0 between states it calls different?): the
+            # flattened product of the weights above it may underflow to 0 although none of them is 0 (the as-coded sum
+            # is handled by `weight_underflow`), and only the violating pair itself counts
+            scale = 1.0
+        vs = [v for v in laws(usp, cl2, ext, sub, res, scale=scale) if v[0] == law and (law != "positive" or tuple(v[1]) == tuple(idx))]
         if not vs:
             continue
-        if w == 0 and law == "positive":
+        if zero and law == "positive":
             out.append(("zeroWeight", {}))
             continue
         tags = {}
@@ -1149,12 +1392,23 @@ def minimal_script(sp, tr):
     return ["spacedist"] + space_lines(sp, [tr])
 
 
-def classify(ck, hbin, sp, tr, v):
+def classify(ck, hbin, sp, tr, v, uo=None, dist=None):
     """one record per culprit unit (the match keys of KNOWN_FINDINGS.jsonl)"""
     law, idx, defect, text = v
-    cs = attribute(ck, hbin, sp, tr, law, idx)
+    if uo is None:
+        uo = unit_outputs(ck, hbin, sp, tr)
+    cs = attribute(ck, hbin, sp, tr, law, idx, uo)
     if not cs:
-        return "compound", [{"engine": "spacedist", "law": law, "culprit": "compound"}]
+        rec = {"engine": "spacedist", "law": law, "culprit": "compound"}
+        if law == "extent" and uo and dist is not None:
+            # F360: CompoundStateSpace::getMaximumExtent drops components whose weight is below DBL_EPSILON, distance() does
+            # not.  The tag holds iff the tree has a weight in (0, epsilon) AND the distance is within the extent that counts
+            # every positively weighted component (the units' own extents, asked from the real code, folded as coded) —
+            # an excess beyond that is something else.
+            full, _uf = tree_fold(sp, iter([u[5] for u in uo]), mode="extent>0")
+            sub_eps = any(0.0 < w < DBL_EPS for w in all_weights(sp))
+            rec["dropped_subeps_weight"] = bool(sub_eps and dist <= full + slack(full, eps=space_eps(sp)))
+        return "compound", [rec]
     recs = []
     for kind, tags in cs:
         rec = {"engine": "spacedist", "law": law, "culprit": kind}
@@ -1164,14 +1418,33 @@ def classify(ck, hbin, sp, tr, v):
     return "+".join(sorted(set(k for k, _ in cs))), recs
 
 
+def weight_underflow(sp, uo, pq):
+    """positivity: the as-coded weighted sum of the units' distances (asked from the real code) is exactly 0 although some
+    unit with only POSITIVE weights above it has a positive distance: the product weight·distance underflowed (e.g. a
+    subnormal weight 5e-324 times 0.3).  Rounding, like the SO(2) seam case — not alarmed, counted."""
+    if not uo:
+        return False
+    val, uf = tree_fold(sp, iter([u[6][1][pq] for u in uo]))
+    return bool(val == 0.0 and uf and any(u[6][1][pq] > 0.0 and not u[2] for u in uo))
+
+
 def report_violation(ck, hbin, sp, tr, v, tag):
     """a violation whose culprit units ALL fall into recorded finding classes is a known finding; anything
     else (another law, another space kind, a defect outside the recorded bound, a compound whose own
     arithmetic is at fault) is reported."""
     law, idx, defect, text = v
-    culprit, recs = classify(ck, hbin, sp, tr, v)
+    uo = unit_outputs(ck, hbin, sp, tr)
+    if law == "positive" and weight_underflow(sp, uo, tuple(idx)):
+        ck.count("oracle:positivity-skipped-weight-underflow")
+        return False
     script = minimal_script(sp, tr)
     impl, model, rc, err = run_script_pair(ck, hbin, script, with_model=not impl_only(sp), retry=True)
+    dist = None
+    if law == "extent" and impl and len(impl) >= pre_lines(sp) + 2 + OPS_PER_TRIPLE:
+        _cl, _ext, ts1 = parse_block(impl[pre_lines(sp):])
+        if ts1 and ts1[0]:
+            dist = ts1[0][1][tuple(idx)]         # the distance the implementation reports for the violating pair
+    culprit, recs = classify(ck, hbin, sp, tr, v, uo, dist=dist)
     # `as_coded`: every value the implementation printed for this triple is bit-identical to the Lean model of the code
     # as it stands (the function the `_fails` witnesses and the finding text are about).  Every finding line requires it,
     # so a DIFFERENT wrong value — same law, same space, same input class — is not a known finding but a VIOLATION.
@@ -1298,10 +1571,13 @@ def judge_batch(ck, hbin, blocks, tag, state, pre=None):
                 if state["bad"] < 6:
                     if report_violation(ck, hbin, sp, tr, v, mode):
                         state["bad"] += 1
-        if tag in ("history", "corpus") or (tag == "compound" and state.get("wsum_budget", 0) > 0):
-            if tag == "compound":
+        if tag in ("history", "corpus", "weights") or odd_weights(sp) or (tag == "compound" and state.get("wsum_budget", 0) > 0):
+            if tag == "compound" and not odd_weights(sp):
                 state["wsum_budget"] -= 1
             weighted_sum_check(ck, hbin, sp, triples, ts, state)
+        for w in all_weights(sp):
+            ck.count("weight:" + ("zero" if w == 0.0 else "subnormal" if w < MIN_NORMAL else "below-epsilon" if w < DBL_EPS else
+                                  "epsilon..1e-6" if w < 1e-6 else "huge" if w > 1e5 else "everyday"))
         if len(state["samples"]) < 6:
             state["samples"].append(1)
             ck.sample({"generator": tag, "space": " ".join(sp_tokens(sp))[:200], "claims": cl, "extent": ext,
@@ -1351,14 +1627,16 @@ def judge_batch(ck, hbin, blocks, tag, state, pre=None):
 
 def weighted_sum_check(ck, hbin, sp, triples, ts, state):
     """independent of the model: the distance the implementation reports for a compound (any nesting of compounds,
-    SE(2)/SE(3), wrappers, constrained spaces, CForest wrappers) must be the sum over its unit sub-spaces of
-    (product of the CURRENT weights on the way down) x (the unit space's own distance), all asked from the real code."""
-    if impl_only(sp) or contains(sp, lambda x: x[0] == "spacetime"):
+    SE(2)/SE(3), wrappers, constrained spaces, CForest wrappers, SpaceTime when finite) must be the weighted sum of its
+    components' distances with the CURRENT weights AT EVERY LEVEL: the unit sub-spaces' own distances (asked from the real
+    code) folded as the code folds them (`tree_fold`: `acc = 0.0; acc += w_i * d_i`, IEEE doubles), for EVERY weight however
+    small.  The comparison is relative (1e-12; no absolute floor, so a term of 2.5e-16 under a tie-breaker weight counts),
+    except where a product underflowed into the subnormals (absolute 1e-300 there)."""
+    if impl_only(sp):
         return
     us = units(sp)
     if len(us) < 2 and all(abs(w - 1.0) < 1e-300 for _u, w, _n in us):
         return
-    sums = [dict((pq, 0.0) for pq in PAIRS) for _ in triples]
     script = ["spacedist"]
     i = 0
     for usp, w, n in us:
@@ -1369,23 +1647,29 @@ def weighted_sum_check(ck, hbin, sp, triples, ts, state):
     per = 3 + OPS_PER_TRIPLE * len(triples)
     if not o or len(o) < per * len(us):
         return
+    ud = []                                          # ud[unit][triple] = D
     for j, (usp, w, n) in enumerate(us):
         blk = o[j * per:(j + 1) * per]
         if blk[0] != "ok":
             return
         _cl, _ext, uts = parse_block(blk[1:])
-        for k, res in enumerate(uts):
-            if res is None:
-                return
-            for pq in PAIRS:
-                sums[k][pq] += w * res[1][pq]
+        if len(uts) < len(triples) or any(res is None for res in uts):
+            return
+        ud.append([res[1] for res in uts])
     for k, (tr, res) in enumerate(zip(triples, ts)):
         if res is None:
             continue
         ck.count("oracle:weighted-sum-triples")
         for pq in PAIRS:
-            d, e = res[1][pq], sums[k][pq]
-            if not (abs(d - e) <= 1e-9 * max(1.0, abs(d), abs(e))):
+            d = res[1][pq]
+            e, uf = tree_fold(sp, iter([ud[j][k][pq] for j in range(len(us))]))
+            if d == math.inf and contains(sp, lambda x: x[0] == "spacetime"):
+                continue                             # not reachable within vMax: not the weighted-sum clause's business
+            if uf:
+                ck.count("oracle:weighted-sum-underflow-pairs")
+            ok = (d == e) or (d != d and e != e) or (math.isfinite(d) and math.isfinite(e) and
+                                                      abs(d - e) <= 1e-12 * max(abs(d), abs(e)) + (1e-300 if uf else 0.0))
+            if not ok:
                 ck.count("oracle-violation:weightedsum")
                 if state["bad"] < 6:
                     state["bad"] += 1
@@ -1473,6 +1757,8 @@ def run(ck):
     nt_leaf, nt_cmp, n_cmp, nt_car = (48, 30, 90, 30) if quick else (240, 100, 450, 120)
     for i, sp in enumerate(shipped_spaces(r)):
         jobs.append(([(sp, make_triples(ck.rng.fork("leaf%d" % i), sp, nt_leaf, state))], "shipped"))
+    for i, sp in enumerate(weight_spaces()):
+        jobs.append(([(sp, make_triples(ck.rng.fork("wsp%d" % i), sp, 13 if quick else 60, state))], "weights"))
     batch = []
     for i in range(n_cmp):
         rr = ck.rng.fork("cmp%d" % i)
